@@ -8,7 +8,8 @@ import (
 
 func nextRune(b []byte, i int) (rune, int, error) {
 	ch, size := utf8.DecodeRune(b[i:])
-	if ch == utf8.RuneError {
+	if ch == utf8.RuneError && size <= 1 {
+		// size 1 (or 0) means the bytes are not valid UTF-8; a well-formed U+FFFD has size 3 and is an ordinary character
 		return ch, i, fmt.Errorf("bad unicode rune")
 	}
 	return ch, i + size, nil
